@@ -313,3 +313,105 @@ Theorem C19_reregistration_satisfiable :
   spec_dispatch ss lg 1 (NGen KMap THeaders) (Some op_post) = [21%N].
 Proof. exact reregistration_example. Qed.
 Print Assumptions C19_reregistration_satisfiable.
+
+(* ---------- evaluation sequences: the same filter sets asked about operations of SEVERAL schemas, in any order ---------- *)
+(* Filter evaluation is a pure function of the operation it is given.  Evaluation is written as a machine over an explicit
+   memory (eval_trace, matcher match_plain = FilterSet.match as it is).  For every state st (any registration history),
+   every memory m, every sequence pre of registrations and evaluations (operations of any number of schemas - equal labels
+   included -, any order, repeated) and everything that follows: the hooks applied by the evaluation of operation o are
+   those of generation_hooks for o in the state the REGISTRATIONS of pre lead to - the evaluations of pre are erased. *)
+Theorem C19_filter_evaluation_pure : forall st m pre s t o post,
+  nth (count_evals pre) (eval_trace match_plain st m (pre ++ QEval s t o :: post)) []
+  = map (fun c => generation_hooks (fst (run_gen true st (qops_of pre))) 0 s t c o) all_targets.
+Proof. exact filter_evaluation_pure. Qed.
+Print Assumptions C19_filter_evaluation_pure.
+
+(* two evaluation sequences that contain the same registrations give the evaluation of o the same result *)
+Theorem C19_filter_evaluation_order_independent : forall st m1 m2 pre1 pre2 s t o post1 post2,
+  qops_of pre1 = qops_of pre2 ->
+  nth (count_evals pre1) (eval_trace match_plain st m1 (pre1 ++ QEval s t o :: post1)) []
+  = nth (count_evals pre2) (eval_trace match_plain st m2 (pre2 ++ QEval s t o :: post2)) [].
+Proof. exact filter_evaluation_order_independent. Qed.
+Print Assumptions C19_filter_evaluation_order_independent.
+
+(* ... hence, from the initial state: hook f is applied for target c by the k-th evaluation iff it is registered at that
+   moment under k_c on the global dispatcher, the dispatcher of the schema of o, or the test dispatcher, and the filters
+   of its own expression select o (its attributes: label, method, path, tags, operationId, truth tables by o_idx) *)
+Theorem C19_evaluation_sequence_own_chain : forall scopes closures m pre s t o post c k f,
+  exists l, nth_error (nth (count_evals pre)
+                           (eval_trace match_plain (init scopes closures) m (pre ++ QEval s t o :: post)) [])
+                      (match c with TPath => 0 | TQuery => 1 | THeaders => 2 | TCookies => 3 | TBody => 4 | TCase => 5 end) = Some l
+            /\ (In (k, f) l <->
+                exists di, in_scope 0 s t di /\ In f (all_by_name (fst (run scopes closures (qops_of pre))) di (NGen k c)) /\
+                           match own_chain (spec_run closures (qops_of pre)) f with Some fs => fset_match fs o = true | None => True end).
+Proof. exact evaluation_sequence_own_chain. Qed.
+Print Assumptions C19_evaluation_sequence_own_chain.
+
+(* the same for auth providers: the k-th case is authenticated as set_on_case says in the state the auth registrations
+   before it lead to, whatever was authenticated before ... *)
+Theorem C19_auth_evaluation_pure : forall st m pre t s o post,
+  nth (count_aevals pre) (auth_trace match_plain st m (pre ++ AQEval t s o :: post)) AuthNone
+  = set_on_case (fst (arun_from st (aqops_of pre))) t s o.
+Proof. exact auth_evaluation_pure. Qed.
+Print Assumptions C19_auth_evaluation_pure.
+
+(* ... by the first provider of the storage in charge (ps) whose OWN chain selects that operation *)
+Theorem C19_auth_evaluation_first_matching : forall n m pre o post ps,
+  no_bad_index (snd (arun n (aqops_of pre))) = true -> ps <> [] ->
+  forall t s, set_on_case (fst (arun n (aqops_of pre))) t s o = storage_set (a_sets (fst (arun n (aqops_of pre)))) ps o ->
+  nth (count_aevals pre) (auth_trace match_plain (ainit n) m (pre ++ AQEval t s o :: post)) AuthNone
+  = match find (fun p => match p with
+                         | PPlain _ => true
+                         | PSelective _ w => fset_match (chain_value (calls_on w (aqops_of pre))) o
+                         end) ps with
+    | Some p => AuthBy (provider_cls p)
+    | None => AuthNone
+    end.
+Proof. exact auth_evaluation_first_matching. Qed.
+Print Assumptions C19_auth_evaluation_first_matching.
+
+(* regression sentinel (seed C19_d): FilterSet.match remembering its verdict per operation LABEL.  Witness: a global hook
+   apply_to(tag=admin), GET /users of schema A tagged admin, GET /users of schema B tagged public - the verdict for the
+   second operation depends on whether the first one was evaluated before *)
+Theorem C19_label_cache_refuted : exists st s1 s2 o1 o2,
+  o_label o1 = o_label o2 /\ o_tags o1 <> o_tags o2 /\
+  nth 1 (eval_trace match_cached st [] [QEval s1 None o1; QEval s2 None o2]) []
+  <> nth 0 (eval_trace match_cached st [] [QEval s2 None o2]) [].
+Proof.
+  exists st_admin_hook, 1, 2, op_users_admin, op_users_public.
+  repeat split; [exact (proj1 (proj2 label_cache_witness)) | exact label_cache_refuted_neq].
+Qed.
+Print Assumptions C19_label_cache_refuted.
+
+(* both directions: wrongly applied after the tagged operation, wrongly skipped after the untagged one; the code as it is
+   (match_plain) applies the hook to the tagged operation only, in both orders (non-vacuity of the theorems above) *)
+Theorem C19_label_cache_witness :
+  o_label op_users_admin = o_label op_users_public /\ o_tags op_users_admin <> o_tags op_users_public /\
+  map query_row (eval_trace match_plain st_admin_hook [] [QEval 1 None op_users_admin; QEval 2 None op_users_public])
+    = [[(KMap, 21%N)]; []] /\
+  map query_row (eval_trace match_plain st_admin_hook [] [QEval 2 None op_users_public; QEval 1 None op_users_admin])
+    = [[]; [(KMap, 21%N)]] /\
+  map query_row (eval_trace match_cached st_admin_hook [] [QEval 1 None op_users_admin; QEval 2 None op_users_public])
+    = [[(KMap, 21%N)]; [(KMap, 21%N)]] /\
+  map query_row (eval_trace match_cached st_admin_hook [] [QEval 2 None op_users_public; QEval 1 None op_users_admin])
+    = [[]; []].
+Proof. exact label_cache_witness. Qed.
+Print Assumptions C19_label_cache_witness.
+
+Theorem C19_auth_label_cache_refuted : exists st s1 s2 o1 o2,
+  o_label o1 = o_label o2 /\
+  nth 1 (auth_trace match_cached st [] [AQEval None s1 o1; AQEval None s2 o2]) AuthNone
+  <> nth 0 (auth_trace match_cached st [] [AQEval None s2 o2]) AuthNone.
+Proof.
+  exists ast_admin, 1, 2, op_users_admin, op_users_public. split; [reflexivity | exact auth_label_cache_refuted_neq].
+Qed.
+Print Assumptions C19_auth_label_cache_refuted.
+
+(* the strongest true restriction of the sentinel, and the reason every single-schema stage is blind to it: as long as the
+   label determines the operation among those evaluated (region labels_determine: all operations from one schema), the
+   label-keyed memory gives the results of the code - for every state and every evaluation sequence *)
+Theorem C19_label_cache_single_schema_partial : forall st qs,
+  labels_determine (map snd qs) = true ->
+  eval_trace match_cached st [] (qevals qs) = eval_trace match_plain st [] (qevals qs).
+Proof. exact label_cache_single_schema. Qed.
+Print Assumptions C19_label_cache_single_schema_partial.
